@@ -150,16 +150,30 @@ def raw_guards(ck, P):
         cnt = fn.call_args(c)[2]
         loc = cnt[1] if cnt[0] == "v" else None
         mins = set()
+        cands = []
         if loc is not None:
             for bi, si, rv in fn.defs.get(loc, []):
                 if rv is None:
                     continue
-                e = fn.call_expr(rv) if si == "call" else fn.rvalue_expr(rv)
-                if e[0] == "call" and isinstance(e[1], str) and e[1].endswith("::min") and fn.dominates(bi, c.bb):
-                    for a in e[2]:
+                cands.append((bi, fn.call_expr(rv) if si == "call" else fn.rvalue_expr(rv)))
+        else:
+            cands.append((c.bb, mir.strip_casts(cnt)))     # a single-definition count is already expanded
+        if True:
+            for bi, e in cands:
+                if e[0] == "call" and isinstance(e[1], str) and e[1].endswith("::min") and (fn.dominates(bi, c.bb) or bi == c.bb):
+                    # min(a, b), a.min(b).min(c): every operand of the (possibly nested) minimum bounds the count
+                    work = list(e[2])
+                    while work:
+                        a = mir.strip_casts(work.pop())
+                        if a[0] == "call" and isinstance(a[1], str) and a[1].endswith("::min"):
+                            work += list(a[2])
+                            continue
                         n = atoms.leaf_name(a, fn)
                         if n:
                             mins.add(n)
+                        for x in mir.walk(a):
+                            if x[0] == "v" and fn.local_name(x[1]):
+                                mins.add(fn.local_name(x[1]))
         ck.decide({"have", "left"} <= mins, R, "back:stored-copy", "count = min(length, have, left)",
                   "stored-block copy count is not bounded by both `have` and `left` (min over %s)" % sorted(mins), where(fn, c.line))
         ck.call_sites += 1
@@ -357,8 +371,9 @@ def run(ck):
     c02.guard_calls(ck, P, only={"fast-entry@back"})
     c02.loop_backedge_guard(ck, P, only={c02.FAST_BACK})
     c02.fast_refill(ck, P, "GUARD/fast-bit-budget", fns=(c02.FAST_BACK,))
-    from .. import refwrites
+    from .. import refwrites, condparity
     ck.floor("SIB/ref-writes", refwrites.check(ck, P, "SIB/ref-writes", only={"infback.c:inflateBack"}), 14)
+    ck.floor("SIB/ref-conditions", condparity.check(ck, P, "SIB/ref-conditions", only={"infback.c:inflateBack"}), 30)
     ck.floor("WHO/overlap-safe-copy", decoders.overlap_safe(ck, P, "WHO/overlap-safe-copy", r"inflate::writer::Writer::copy_match_back$"), 1)
     who(ck, P)
     init_const(ck, P)
